@@ -200,14 +200,14 @@ def parse_secs(line):
         return None
 
 
-def flux_variants(r, d, img_sides, quick, k=0):
+def flux_variants(r, d, img_sides, quick, k=0, force_kind=None):
     """yield (name, bytes, description) flux recordings of a disc whose per-side sector dumps are img_sides"""
     tracks, spt, sides = d.tracks, d.spt, len(img_sides)
     mfm = spt != 10
     full = b''.join(img_sides)
     kinds = ['hfe1', 'hfe3'] + (['hxc'] if mfm else [])
     if quick:
-        kinds = [kinds[k % len(kinds)]]
+        kinds = [force_kind or kinds[k % len(kinds)]]
     for kind in kinds:
         trs = flux.tracks_of_image(full, tracks, spt, sides, mfm, lay_for=lambda t, sd: rand_layout(r, mfm, spt))
         # container freedoms: HxC track data anywhere in the file, in any order, with padding between tracks; the HFE LUT records
@@ -225,10 +225,12 @@ def flux_variants(r, d, img_sides, quick, k=0):
 def run_e2e(ctx, r, quick):
     impl = ctx.build('asan')
     cases = []
-    ndiscs = 6 if quick else 60
+    QUICK = [((40, 10), 'hfe3', False), ((40, 18), 'hfe3', True), ((35, 18), 'hxc', False), ((40, 16), 'hfe1', True), ((35, 10), 'hfe1', True),
+             ((40, 18), 'hxc', True), ((80, 10), 'hfe3', True), ((40, 18), 'hfe1', False)]
+    ndiscs = len(QUICK) if quick else 60
     for k in range(ndiscs):
-        two = (k % 2 == 1) if quick else r.chance(1, 3)
-        geom = r.choice([(40, 10), (80, 10), (35, 10), (40, 18), (80, 18), (40, 16)]) if not quick else [(40, 10), (40, 18), (35, 18), (40, 16), (35, 10), (40, 18)][k % 6]
+        two = QUICK[k][2] if quick else r.chance(1, 3)
+        geom = r.choice([(40, 10), (80, 10), (35, 10), (40, 18), (80, 18), (40, 16)]) if not quick else QUICK[k][0]
         variant = r.choice(['dfs', 'wdfs']) if geom[1] != 18 else r.choice(['dfs', 'wdfs', 'opus'])
         # the catalogue's sector count is that of a disc formatted with this geometry: a sector dump carries no other record of the
         # track count (dfs guesses it from that count), whereas a flux image records it
@@ -257,7 +259,7 @@ def run_e2e(ctx, r, quick):
             cmds += [['cat', '2'], ['info', ':2.*.*'], ['free', '2']]
         if variant == 'opus':
             cmds += [['--drive', '0%s' % l, 'cat'] for (l, o, n, c) in d.volumes()][:3]
-        for (fname, fbytes, kind) in flux_variants(r, d, sides_img, quick, k):
+        for (fname, fbytes, kind) in flux_variants(r, d, sides_img, quick, k, QUICK[k][1] if quick else None):
             for cmd in cmds:
                 pre = [a for a in cmd if isinstance(a, str) and a.startswith('--drive')]
                 if pre:
